@@ -28,6 +28,28 @@ INVARIANTS ResultsAgree PositionAgrees IsEndAgrees WellFormed %(export)s
 """
 
 
+def complete_lines(chk, pr, what):
+    """Trace lines of a bsr_harness run.  The harness drives the real class directly: when it dies from a signal (the class read or wrote
+    outside its window on a call sequence of the specification) that is a violation, not a machinery problem; the traces
+    written before are still validated."""
+    lines = []
+    for l in pr.stdout.splitlines():
+        l = l.strip()
+        if not l:
+            continue
+        try:
+            json.loads(l)
+            lines.append(l)
+        except ValueError:
+            pass            # the line that was being written when the process died
+    if pr.returncode < 0 or pr.returncode in (134, 139):
+        chk.fail("CBinaryStreamReader: the process died (exit %d) during %s after %d complete traces" % (pr.returncode, what, len(lines)),
+                 {"leg": "binstream", "last_complete_trace": json.loads(lines[-1]) if lines else None, "stderr": pr.stderr[-500:]})
+    elif pr.returncode != 0:
+        raise vlib.MachineryError("bsr_harness failed (exit %d): %s" % (pr.returncode, pr.stderr[-2000:]))
+    return lines
+
+
 def leg_binstream(chk, tier):
     """CBinaryStreamReader: M => A exhaustively; TLC-generated call sequences replayed on the real class with
     small windows; random traces at the real window size validated against M and A."""
@@ -63,16 +85,17 @@ def leg_binstream(chk, tier):
                              "ops": [{"op": o["op"], "arg": o["arg"]} for o in s["ops"]]})
         sp = os.path.join(vlib.scratch(), "bsr_scen_%d.ndjson" % chunk)
         vlib.write_ndjson(sp, rows)
-        out = vlib.run([exe, "replay", sp], timeout=900).stdout
+        pr = vlib.run([exe, "replay", sp], timeout=900, check=False)
         os.unlink(sp)
-        lines += [l for l in out.splitlines() if l.strip()]
+        out = complete_lines(chk, pr, "replay of TLC call sequences (window %d)" % chunk)
+        lines += out
         chk.sample({"leg": "binstream-replay", "scenario": rows[len(rows) // 2]})
         chk.add_cases(len(rows), distinct_keys=(("bsr", chunk, s["len"], json.dumps(s["ops"])) for s in scen))
     # 3. random driver at the real window size
     exe = build("bsr_c256", ["bsr_harness.cpp"], groups=("common",))
     nrand = 3000 if tier == "quick" else 40000
-    out = vlib.run([exe, "random", str(nrand), str(vlib.seed()), "1300", "40"], timeout=900).stdout
-    rl = [l for l in out.splitlines() if l.strip()]
+    pr = vlib.run([exe, "random", str(nrand), str(vlib.seed()), "1300", "40"], timeout=900, check=False)
+    rl = complete_lines(chk, pr, "seeded random call sequences (window 256)")
     lines += rl
     chk.add_cases(len(rl), distinct_keys=(("bsr-rand", hash(l)) for l in rl))
     cfg = write_cfg("trace_bsr.cfg", 'INIT Init\nNEXT Next\nCONSTANT Fix = "probe"\n')
